@@ -1446,6 +1446,9 @@ class Machine:
                 args = [self.eval(a, fr, guard) for a in e["args"]]
                 if self.prog.is_field_type(ty) and len(args) == 1 and isinstance(args[0], FieldV):
                     return FieldV(args[0].idx, ty, name)
+                if self.prog.is_field_type(ty) and len(args) == 1 and getattr(self, "cur_tok", None):
+                    # a variant built by hand from the content of the token being parsed
+                    return FieldV(self.cur_tok[-1], ty, name)
                 return EnumV(ty, name, args)
             # field type associated functions
             if self.prog.is_field_type(ty) and name in ("parse", "parse_with_variant"):
@@ -1718,7 +1721,13 @@ class Machine:
         if name == "parse_with_variant":
             m = self.prog.fns.get((ty, "parse_with_variant", True))
             if m is not None:
-                val, _ = self.call_fn(m[0], args, self.live(fr, guard), self_ty=ty)
+                if not hasattr(self, "cur_tok"):
+                    self.cur_tok = []
+                self.cur_tok.append(content.idx)
+                try:
+                    val, _ = self.call_fn(m[0], args, self.live(fr, guard), self_ty=ty)
+                finally:
+                    self.cur_tok.pop()
                 return val
             # trait default: Self::parse(value)
         # enum `parse` (no option letter): run its body when it only dispatches on the member parsers;
@@ -1727,17 +1736,24 @@ class Machine:
             m = self.prog.fns.get((ty, "parse", True))
             if m is not None:
                 snap = (len(self.unwind_obl), len(self.progress_obl), len(self.heur_used), len(self.side), self.depth)
+                if not hasattr(self, "cur_tok"):
+                    self.cur_tok = []
+                self.cur_tok.append(content.idx)
                 try:
                     val, _ = self.call_fn(m[0], [content], self.live(fr, guard), self_ty=ty)
                     if isinstance(val, Res):
                         return val
                     raise Unsupported("enum parse did not evaluate to a Result")
                 except Unsupported:
+                    self.cur_tok.pop()
+                    self.cur_tok.append(None)
                     del self.unwind_obl[snap[0]:]
                     del self.progress_obl[snap[1]:]
                     del self.heur_used[snap[2]:]
                     del self.side[snap[3]:]
                     self.depth = snap[4]
+                finally:
+                    self.cur_tok.pop()
         if ty in self.prog.enums:
             variants = [v["name"] for v in self.prog.enums[ty]["variants"]]
             self.fresh += 1
